@@ -470,6 +470,54 @@ def _gradient_cached(expr: Expression, wrt: Variable) -> Expression:
 # =============================================================================
 
 
+_INVERSE_AND_LOG_OPS = frozenset(
+    {"asin", "acos", "atan", "asinh", "acosh", "atanh", "log2", "log10"}
+)
+
+
+def _inverse_and_log_gradient(
+    op: str, operand: Expression, d_operand: Expression
+) -> Expression:
+    """Chain rule for the inverse trigonometric/hyperbolic functions and log2/log10.
+
+    Same formulas as the recursive implementation in ``_gradient_cached``.
+    """
+    from optyx.core.expressions import Constant
+    from optyx.core.functions import sqrt as sqrt_fn
+
+    square = _simplify_mul(operand, operand)
+    if op == "asin":
+        inner = _simplify_sub(Constant(1.0), square)
+        factor = _simplify_div(Constant(1.0), sqrt_fn(inner))
+    elif op == "acos":
+        inner = _simplify_sub(Constant(1.0), square)
+        factor = _simplify_neg(_simplify_div(Constant(1.0), sqrt_fn(inner)))
+    elif op == "atan":
+        factor = _simplify_div(Constant(1.0), _simplify_add(Constant(1.0), square))
+    elif op == "asinh":
+        inner = _simplify_add(Constant(1.0), square)
+        factor = _simplify_div(Constant(1.0), sqrt_fn(inner))
+    elif op == "acosh":
+        inner = _simplify_sub(square, Constant(1.0))
+        factor = _simplify_div(Constant(1.0), sqrt_fn(inner))
+    elif op == "atanh":
+        factor = _simplify_div(Constant(1.0), _simplify_sub(Constant(1.0), square))
+    elif op == "log2":
+        factor = _simplify_div(
+            Constant(1.0), _simplify_mul(operand, Constant(np.log(2.0)))
+        )
+    elif op == "log10":
+        factor = _simplify_div(
+            Constant(1.0), _simplify_mul(operand, Constant(np.log(10.0)))
+        )
+    else:
+        raise UnknownOperatorError(
+            operator=op,
+            context="iterative gradient computation (unary)",
+        )
+    return _simplify_mul(factor, d_operand)
+
+
 def _gradient_iterative(expr: Expression, wrt: Variable) -> Expression:
     """Iterative gradient computation using explicit stack.
 
@@ -647,6 +695,10 @@ def _gradient_iterative(expr: Expression, wrt: Variable) -> Expression:
                 results[node_id] = _simplify_mul(cosh(operand), d_operand)
             elif current.op == "cosh":
                 results[node_id] = _simplify_mul(sinh(operand), d_operand)
+            elif current.op in _INVERSE_AND_LOG_OPS:
+                results[node_id] = _inverse_and_log_gradient(
+                    current.op, operand, d_operand
+                )
             else:
                 # For other unary ops, fall back to numerical or raise
                 raise UnknownOperatorError(
